@@ -63,7 +63,8 @@ Proof. exact C19_row_line_ordered. Qed.
 Theorem C19_lines_of_a_loaded_test_are_relative_to_its_own_source :
   forall (f : dig_file) (n : nat) (tc : testcase),
   load_test f n = Ok tc ->
-  exists (nm : name) (src : text), nth_error (df_tests f) n = Some (nm, src) /  Forall (fun line : N =>
+  exists (nm : name) (src : text), List.nth_error (df_tests f) n = Some (nm, src) /\
+  Forall (fun line : N =>
             exists u v : list N, src = u ++ v /\ line = N.of_nat (1 + count_nl u) /\ row_starts_here v)
          (row_lines (tc_stmts tc)).
 Proof. exact load_test_row_lines. Qed.
